@@ -30,7 +30,7 @@ def gen_cases(rng, tier, count=None):
                 out.append({"algo": "POO_" + kind, "stub": True, "part": "Bin", "box": [[-1.0, 2.0]], "box_kind": "shifted",
                             "n": n, "T": n, "params": {"nu": 2.0, "rhomax": rm}, "np_seed": 0,
                             "reward": {"family": "sin3", "seed": 0}, "_cost": 5e-5 * n,
-                            "queries": [n // 3, n // 2]})
+                            "queries": [n // 3, n // 2], "midqueries": [n // 4, n // 2 + 1, n - 2]})
     nreal = 200 if tier == "quick" else 3000
     if count:
         out = out[:count]
@@ -40,7 +40,7 @@ def gen_cases(rng, tier, count=None):
         c = TS.wrapper_case(rng, tier, po[i % len(po)])
         c["T"] = c["n"]
         c["queries"] = sorted(int(x) for x in rng.integers(1, c["T"], size=int(rng.integers(0, 3))))
-        out.append(c)
+        out.append(c)  # (mid-round queries are added by wrapper_case)
     return out
 
 
